@@ -702,48 +702,51 @@ func TestVerifC15(t *testing.T) {
 	// configured prefixes include one with a parameter; every ordered pair of types of the
 	// alphabet is served by a fresh instance.
 	if shard == 2%shards {
-		prefixes := []string{"text/plain; charset=utf-8", "application/json", "text/h"}
-		types := []string{"text/plain; charset=utf-8", "text/plain; charset=iso-8859-1", "text/plain", "text/plain;charset=utf-8", "TEXT/PLAIN; charset=utf-8",
-			"application/json", "application/json; charset=utf-8", "application/jsonx", "text/html", "text/css", "text/plain; charset=utf-8; format=flowed", ""}
-		allowedType := func(ct string) bool {
-			for _, pfx := range prefixes {
-				if strings.HasPrefix(ct, pfx) {
-					return true
+		// (and lists of other lengths: an empty list configures no prefix at all, so nothing is
+		// compressed; a list of one)
+		for _, prefixes := range [][]string{{"text/plain; charset=utf-8", "application/json", "text/h"}, {}, {"application/json"}} {
+			types := []string{"text/plain; charset=utf-8", "text/plain; charset=iso-8859-1", "text/plain", "text/plain;charset=utf-8", "TEXT/PLAIN; charset=utf-8",
+				"application/json", "application/json; charset=utf-8", "application/jsonx", "text/html", "text/css", "text/plain; charset=utf-8; format=flowed", ""}
+			allowedType := func(ct string) bool {
+				for _, pfx := range prefixes {
+					if strings.HasPrefix(ct, pfx) {
+						return true
+					}
 				}
+				return false
 			}
-			return false
-		}
-		body := c15Payload("text", 4000)
-		for _, t1 := range types {
-			for _, t2 := range types {
-				ps, err := newProgServer([]config.PluginConfig{gzipCfg(5, 10, prefixes...)})
-				if err != nil {
-					t.Fatal(err)
-				}
-				e := &exch{addr: ps.addr}
-				for k, ct := range []string{t1, t2, t1} {
-					hdr := []wire.HeaderLine{}
-					if ct != "" {
-						hdr = append(hdr, wire.HeaderLine{"Content-Type", ct})
+			body := c15Payload("text", 4000)
+			for _, t1 := range types {
+				for _, t2 := range types {
+					ps, err := newProgServer([]config.PluginConfig{gzipCfg(5, 10, prefixes...)})
+					if err != nil {
+						t.Fatal(err)
 					}
-					ps.set(&hprog{Status: 200, Header: hdr, Parts: [][]byte{body}})
-					resp := e.do(&wire.Request{Method: "GET", Target: "/g", Header: []wire.HeaderLine{{"Host", "x.test"}, {"Accept-Encoding", "gzip"}}, NoBody: true}, dl)
-					evals++
-					compressed := resp.Get("Content-Encoding") != ""
-					outs.Add(fmt.Sprintf("type-sequence/%v/%v", allowedType(ct), compressed))
-					desc := fmt.Sprintf("content_types %q, responses of types %q, %q, %q in this order on one gzip instance: response %d (%q)", prefixes, t1, t2, t1, k+1, ct)
-					got, derr := c15Decode(resp)
-					switch {
-					case resp.Err != "" || resp.Status != 200:
-						r.Violate("C15/type-sequence/exchange-failed", fmt.Sprintf("%s: status %d %s", desc, resp.Status, resp.Err), k, nil)
-					case derr != "" || !bytes.Equal(got, body):
-						r.Violate("C15/type-sequence/decoded-body-differs", fmt.Sprintf("%s: decoding as labelled gives %d bytes (%s), the origin sent %d", desc, len(got), derr, len(body)), k, nil)
-					case compressed && !allowedType(ct):
-						r.Violate("C15/type-sequence/compressed-although-type-matches-no-prefix", fmt.Sprintf("%s was compressed although its content type starts with none of the configured prefixes", desc), k, map[string]interface{}{"engine": "W", "test": "TestVerifC15", "types": []string{t1, t2, t1}})
+					e := &exch{addr: ps.addr}
+					for k, ct := range []string{t1, t2, t1} {
+						hdr := []wire.HeaderLine{}
+						if ct != "" {
+							hdr = append(hdr, wire.HeaderLine{"Content-Type", ct})
+						}
+						ps.set(&hprog{Status: 200, Header: hdr, Parts: [][]byte{body}})
+						resp := e.do(&wire.Request{Method: "GET", Target: "/g", Header: []wire.HeaderLine{{"Host", "x.test"}, {"Accept-Encoding", "gzip"}}, NoBody: true}, dl)
+						evals++
+						compressed := resp.Get("Content-Encoding") != ""
+						outs.Add(fmt.Sprintf("type-sequence/%v/%v", allowedType(ct), compressed))
+						desc := fmt.Sprintf("content_types %q, responses of types %q, %q, %q in this order on one gzip instance: response %d (%q)", prefixes, t1, t2, t1, k+1, ct)
+						got, derr := c15Decode(resp)
+						switch {
+						case resp.Err != "" || resp.Status != 200:
+							r.Violate("C15/type-sequence/exchange-failed", fmt.Sprintf("%s: status %d %s", desc, resp.Status, resp.Err), k, nil)
+						case derr != "" || !bytes.Equal(got, body):
+							r.Violate("C15/type-sequence/decoded-body-differs", fmt.Sprintf("%s: decoding as labelled gives %d bytes (%s), the origin sent %d", desc, len(got), derr, len(body)), k, nil)
+						case compressed && !allowedType(ct):
+							r.Violate("C15/type-sequence/compressed-although-type-matches-no-prefix", fmt.Sprintf("%s was compressed although its content type starts with none of the configured prefixes", desc), k, map[string]interface{}{"engine": "W", "test": "TestVerifC15", "types": []string{t1, t2, t1}})
+						}
 					}
+					e.close()
+					ps.srv.Close()
 				}
-				e.close()
-				ps.srv.Close()
 			}
 		}
 	}
